@@ -43,6 +43,7 @@ func (x *Exec) call(fr *frame, st *State, site ssa.Instruction, cc *ssa.CallComm
 
 func (x *Exec) call0(fr *frame, st *State, site ssa.Instruction, cc *ssa.CallCommon) Value {
 	c := x.c
+	x.curSite = site
 	args := make([]Value, len(cc.Args))
 	for i, a := range cc.Args {
 		args[i] = x.val(fr, a)
